@@ -44,9 +44,10 @@ static int add_device(fstree_t *fs, const char *filename, size_t line_num,
 		goto fail_type;
 	}
 
-	if (parse_uint(line->args[1], -1, NULL, 0, 0x0FFFFFFFF, &maj))
+	/* SquashFS stores a 32 bit device number: 12 bit major, 20 bit minor */
+	if (parse_uint(line->args[1], -1, NULL, 0, 0x0FFF, &maj))
 		goto fail_num;
-	if (parse_uint(line->args[2], -1, NULL, 0, 0x0FFFFFFFF, &min))
+	if (parse_uint(line->args[2], -1, NULL, 0, 0x0FFFFF, &min))
 		goto fail_num;
 
 	ent->rdev = makedev(maj, min);
